@@ -106,6 +106,75 @@ fn case_typed<S: Spec>(sub: &str, id: u64, steps: u64, r: &mut Report) {
             r.covn(&format!("injective_states:{}", S::NAME), seen.len() as u64);
             r.distinct(hkey(&[&"injective", &S::NAME, &base]));
         }
+        // generators seeded through the API never sit in / reach the all-zero
+        // state and have no fixed point, whatever the constructor argument
+        "api_seeded" => {
+            use rand_core::SeedableRng;
+            let zero = inject::<S>(&vec![0u8; S::SEED_LEN]);
+            for k in 0..24u64 {
+                let (how, mut g): (String, S::R) = match k % 4 {
+                    0 | 1 => { let x = super::c08::special_u64(&mut p, k + (id % 12)); (format!("seed_from_u64({})", hx64(x)), S::R::seed_from_u64(x)) }
+                    2 => { let s = if p.chance(1, 4) { vec![0u8; S::SEED_LEN] } else { gen_seed(&mut p, S::SEED_LEN, wb, true).1 }; (format!("from_seed({})", hex(&s)), S::from_seed(&s)) }
+                    _ => {
+                        let zeros = p.below(3) as usize * S::SEED_LEN;
+                        let mut d = vec![0u8; zeros];
+                        d.extend(p.bytes(S::SEED_LEN));
+                        let mut src = crate::drive::SourceRng::new(d);
+                        (format!("from_rng({} leading zero bytes)", zeros), S::R::from_rng(&mut src))
+                    }
+                };
+                let mut prev = g.clone();
+                for step in 0..64 {
+                    r.eval();
+                    if S::eq(&g, &zero) == Some(true) {
+                        r.violation(format!("{}:api_seeded_generator_in_zero_state", S::NAME), sub, id,
+                            json!({"type": S::NAME, "constructor": how, "after_steps": step}));
+                        return;
+                    }
+                    native_step::<S>(&mut g);
+                    if S::eq(&g, &prev) == Some(true) {
+                        r.violation(format!("{}:fixed_point", S::NAME), sub, id, json!({"type": S::NAME, "constructor": how, "after_steps": step}));
+                        return;
+                    }
+                    prev = g.clone();
+                }
+            }
+            r.cov(&format!("api_seeded:{}", S::NAME));
+            r.distinct(hkey(&[&"api_seeded", &S::NAME, &id]));
+        }
+        // every state-advancing operation (next_u32, next_u64, fill_bytes of any
+        // length) moves the state exactly along the cycle: after an operation that
+        // consumes k native words the state equals the k-fold native successor
+        "mixed_ops" => {
+            use super::c05::{apply, PFam, Proj};
+            let (class, s) = gen_seed(&mut p, S::SEED_LEN, wb, false);
+            let mut g = inject::<S>(&s);
+            let mut twin = inject::<S>(&s);
+            let mut proj = Proj::new(PFam::from(S::FAMILY));
+            let zero_img = vec![0u8; S::SEED_LEN];
+            let mut ops = Vec::new();
+            for _ in 0..p.range(4, 24) {
+                let op = crate::drive::gen_out_op(&mut p, 0, 8);
+                let before = proj.pos;
+                let _ = proj.expect(&op, &mut |_| 0); // only the word count matters here
+                for _ in before..proj.pos {
+                    native_step::<S>(&mut twin);
+                }
+                let _ = apply(&mut g, &op);
+                ops.push(op.clone());
+                r.eval();
+                let (gi, ti) = (image::<S>(&g), image::<S>(&twin));
+                if gi != ti || gi == zero_img {
+                    r.violation(format!("{}:operation_leaves_the_cycle", S::NAME), sub, id, json!({
+                        "type": S::NAME, "start_state": hex(&s), "ops": crate::drive::show_ops(&ops),
+                        "state_after": hex(&gi), "expected_state(native successor x words consumed)": hex(&ti), "words_consumed": proj.pos}));
+                    return;
+                }
+            }
+            r.cov(&format!("mixed_ops:{}", S::NAME));
+            r.cov(&format!("seed_class:{}", class));
+            r.distinct(hkey(&[&"mixed_ops", &S::NAME, &s, &crate::drive::show_ops(&ops)]));
+        }
         _ => r.inconclusive(format!("unknown sub-monitor {} for C07", sub)),
     }
 }
@@ -133,9 +202,13 @@ pub fn run(ctx: &Ctx, only: Option<&Only>) -> Report {
     let secs = if ctx.tier_thorough { ctx.budget_s } else { 0.0 };
     let brent_steps = ctx.n(1 << 21, 1 << 27);
     total.merge(drive(ctx, "linearity", ctx.n(600, 600), secs * 0.2, |id, r| case("linearity", id, 0, r)));
-    total.merge(drive(ctx, "brent", ctx.n(120, 120), secs * 0.6, |id, r| case("brent", id, brent_steps, r)));
+    total.merge(drive(ctx, "brent", ctx.n(120, 120), secs * 0.4, |id, r| case("brent", id, brent_steps, r)));
     total.merge(drive(ctx, "injective", ctx.n(60, 60), secs * 0.2, |id, r| case("injective", id, ctx.n(20_000, 200_000), r)));
+    total.merge(drive(ctx, "api_seeded", ctx.n(1_500, 1_500), secs * 0.1, |id, r| case("api_seeded", id, 0, r)));
+    total.merge(drive(ctx, "mixed_ops", ctx.n(6_000, 6_000), secs * 0.1, |id, r| case("mixed_ops", id, 0, r)));
     for &ti in &LINEAR_TYPES {
+        total.floor(&format!("api_seeded:{}", TYPE_NAMES[ti]), 10);
+        total.floor(&format!("mixed_ops:{}", TYPE_NAMES[ti]), 50);
         total.floor(&format!("matrix_observed:{}", TYPE_NAMES[ti]), 1);
         total.floor(&format!("linearity_obs:{}", TYPE_NAMES[ti]), 1000);
         total.floor(&format!("brent_steps:{}", TYPE_NAMES[ti]), 1 << 21);
